@@ -180,6 +180,7 @@ def run(tier, replay=None):
                              "instruction": it["insn"], "program": it["src0"], "ast": json.dumps(it["ast"]), "real_tree": d["real"][:2500]})
             continue
         cert_detail[d.get("cert-detail")] += 1
+        it["_cert"] = (bool(cert), d.get("cert-detail"))
         if cert:
             buckets["proved_for_all_states"] += 1
             if len(examples.get("_certified", [])) < 6:
@@ -204,6 +205,8 @@ def run(tier, replay=None):
         emit()
     if os.environ.get("VERIF_DEBUG"):
         json.dump(viol, open("/tmp/c01_viol.json", "w"), indent=1, default=str)
+        json.dump([{"insn": it["insn"], "part": it["part"], "src": it.get("src"), "cert": it["_cert"][0], "detail": it["_cert"][1]}
+                   for it in sem_items if "_cert" in it], open("/tmp/c01_detail.json", "w"), indent=1)
     res.coverage.update({
         "evaluations": cnt["parts_text_checked"] + cnt["states_run"], "distinct_nontrivial": cnt["parts"],
         "rule": "one evaluation = one accepted corpus part analysed by the Lean per-output checkers, or one (part, state) execution of the C semantics and of the REAL emitted effect; distinct = behaviour parts of the run (thorough: every part of all 2181 definitions; quick: seeded stratified sample over instruction classes and features)",
